@@ -27,6 +27,7 @@ use crate::seams;
 
 enum Cmd {
     Expand(Arc<String>),
+    Probe,
     Frag(u64, u64),
     Quit,
 }
@@ -157,6 +158,24 @@ fn worker_main(slot: Arc<Slot>) {
                 drop(head);
                 slot.finish();
             },
+            Cmd::Probe => {
+                // seam self-test: go through std's public API exactly as code under test would
+                let env = std::env::var("VERIF_PROBE_UNSET_NAME_A").unwrap_or_else(|_| "-".into());
+                let env2 = std::env::var("VERIF_PROBE_SET").unwrap_or_else(|_| "-".into());
+                let envx = std::env::var("EDUCE_SOME_KNOB").unwrap_or_else(|_| "-".into());
+                let cwd = std::env::current_dir().map(|p| p.display().to_string()).unwrap_or_default();
+                let f = std::fs::File::open("/definitely/not/here").is_ok();
+                let ncpu = std::thread::available_parallelism().map(|n| n.get()).unwrap_or(0);
+                let now = std::time::SystemTime::now()
+                    .duration_since(std::time::UNIX_EPOCH)
+                    .map(|d| d.as_secs() as i64)
+                    .unwrap_or(-1);
+                let pid = std::process::id();
+                let heap = Box::new(0u8);
+                let addr = &*heap as *const u8 as usize;
+                reply(format!("ok env={env},{env2},{envx} cwd={cwd} open={f} ncpu={ncpu} now={now} pid={pid} heap={addr:x}\n").as_bytes());
+                slot.finish();
+            },
             Cmd::Frag(seed, n) => {
                 // allocate n blocks of PRNG sizes, free a PRNG subset, keep the rest alive on this
                 // worker so that later allocations land at different addresses
@@ -226,6 +245,9 @@ fn apply_address_slide() -> (usize, usize) {
 pub fn host_main() -> i32 {
     std::panic::set_hook(Box::new(|_| {}));
     apply_address_slide();
+    let envnum = |k: &str| std::env::var(k).ok().and_then(|v| v.parse::<u64>().ok()).unwrap_or(0);
+    seams::ENV_SEED.store(envnum("VERIF_ENV_SEED"), Ordering::SeqCst);
+    seams::SIM_NCPU.store(envnum("VERIF_NCPU"), Ordering::SeqCst);
     let stdin = std::io::stdin();
     let mut r = BufReader::new(stdin.lock());
     let mut inputs: BTreeMap<u64, Arc<String>> = BTreeMap::new();
@@ -311,13 +333,25 @@ pub fn host_main() -> i32 {
                 };
                 wk.slot.call(Cmd::Frag(seed, n));
             },
+            "Y" if parts.len() == 2 => {
+                let id: u64 = parts[1].parse().unwrap_or(0);
+                let Some(wk) = workers.get(&id) else {
+                    say("err no such worker\n");
+                    continue;
+                };
+                wk.slot.call(Cmd::Probe);
+            },
             "T" => {
                 say(&format!(
-                    "stats {} {} {} {}\n",
+                    "stats {} {} {} {} {} {} {} {}\n",
                     seams::GETRANDOM_CALLS_WORKER.load(Ordering::SeqCst),
                     seams::GETRANDOM_CALLS_OTHER.load(Ordering::SeqCst),
                     seams::CLOCK_READS_WORKER.load(Ordering::SeqCst),
-                    seams::PID_READS_WORKER.load(Ordering::SeqCst)
+                    seams::PID_READS_WORKER.load(Ordering::SeqCst),
+                    seams::ENV_READS_WORKER.load(Ordering::SeqCst),
+                    seams::CWD_READS_WORKER.load(Ordering::SeqCst),
+                    seams::FS_CALLS_WORKER.load(Ordering::SeqCst),
+                    seams::NCPU_READS_WORKER.load(Ordering::SeqCst)
                 ));
             },
             "Q" => {
